@@ -229,23 +229,42 @@ CLAIMED = {
         technique="Lean 4 proof (normal equations, conjugates, KKT fixed points, step conditions) about translator-generated set-ups + step-by-step differential correspondence",
         design="DESIGN.md §3 C14, §9"),
     "C08": dict(
-        text="Lean 4 theorems about the formulas and branch choices the translator extracts from sigpy/conv.py "
-             "(Gen/ConvFormulas.lean: output length per mode, the valid-mode admission test, the adjoint buffer lengths, which "
-             "correlate mode each adjoint branch picks): conv_out_len_full / conv_out_len_valid / conv_out_len_valid_any (p is "
-             "exactly the number of samples 0, s, 2s, ... below scipy's m+n-1 resp. |m-n|+1, for all m, n, s >= 1 and either size "
-             "order), admit_iff / admit_cases, adj_buf_len, data/filt_adj_shift(_nd) (with the code's mode choice the correlate "
-             "shift equals the convolution offset, both modes, both size orders, per axis with the global all() decision), and over "
-             "any commutative *-ring: conv1_entries, data_adj_entries / filt_adj_entries (the adjoints as computed have the "
-             "transposed, conjugated entries of the forward map), data_adjoint / filter_adjoint (1-D, all strides), _mc (batch and "
-             "channels), _2d, adjoint_nd + mkAxes_ok + data/filter_adjoint_nd_code (any D by recursion over axes), "
-             "gi_model_is_star_ring (the executed Gaussian-integer type is such a ring). Tie: translator + exhaustive exact "
-             "correspondence (D=1 all lengths 1-5 x strides x modes x channel configs x batch; D=2 grid; D=3,4 sampled; functions "
-             "and all six Linop classes, outputs or error kinds).",
+        text="Lean 4 theorems about what the translator extracts from sigpy/conv.py and sigpy/linop.py on every run. "
+             "Gen/ConvFormulas.lean (output length per mode, the valid-mode admission test, the adjoint buffer lengths, which "
+             "correlate mode each adjoint branch picks): conv_out_len_full / _valid / _valid_any / _any (p is exactly the number of "
+             "samples 0, s, 2s, ... below scipy's m+n-1 resp. |m-n|+1, for all m, n, s >= 1 and either size order), admit_iff / "
+             "admit_cases, adj_buf_len, data/filt_adj_shift(_nd) (with the code's mode choice the correlate shift equals the "
+             "convolution offset, both modes, both size orders, per axis with the global all() decision). Gen/ConvWiring.lean (the "
+             "three `for k in range(B): for j in range(c_o): for i in range(c_i):` nests of _convolve / _convolve_data_adjoint / "
+             "_convolve_filter_adjoint: loop ranges, the slice accumulated into, `+=` vs `=`, the scipy call, its operands and mode "
+             "argument, `[slc]` on the result, the statement `output_kj[slc] = output[k, j]` with its enclosing loops and its "
+             "position before the use, the normalised layouts, np.zeros vs np.empty and the array whose dtype each buffer is "
+             "allocated with): wiring_flags / wiring_loops (decision tables), conv_wiring / data_adj_wiring / filt_adj_wiring "
+             "(after the nests output[b,o] = sum_c K(data[b,c], filt[o,c]), data[b,c] = sum_o K(stuffed output[b,o], filt[o,c]), "
+             "filt[o,c] = sum_b K(stuffed output[b,o], data[b,c])). Over any commutative *-ring: conv1_entries, data/filt_adj_entries, "
+             "data_adjoint / filter_adjoint (1-D), _mc (1-D batch and channels, generated wiring), _2d, adjoint_nd + mkAxes_ok(_admitted) "
+             "(any D by recursion over the axes), data_adjoint_nd_mc / filter_adjoint_nd_mc and adjoint_nd_mc_code: the full "
+             "statement <conv(d,f), y> = <d, adj_d(y,f)> = <f, adj_f(y,d)> for any D with batch and channel mixing, all strides, on "
+             "the whole admitted domain (full; valid with data >= filter on every axis or shorter on every axis), about the "
+             "generated wiring + generated formulas; gi_model_is_star_ring. dtype_rule / complex_output_exact: every adjoint buffer "
+             "has the dtype of the output-side array, so no dtype combination drops an imaginary part and the rejected ones are "
+             "exactly those where numpy's in-place add would cast complex into real. Gen/ConvLinops.lean (constructors, _apply, "
+             "_adjoint_linop of ConvolveData / ConvolveDataAdjoint / ConvolveFilter / ConvolveFilterAdjoint): "
+             "linop_adjoint_args_agree (same array, mode, strides, multi_channel; own shape argument; swapped oshape/ishape; right "
+             "conv function) and linop_double_adjoint. Gen/ConvParams.lean (D, the slices for m, n, b and the indices of the channel "
+             "check, c_i, c_o in _get_convolve_params): split_mc / split_sc (data_shape = b + (c_i,) + m and filt_shape = (c_o, c_i) + n "
+             "are split into exactly b, m, n, c_i, c_o; ValueError iff the channel counts differ). Tie: translator (a construct outside its subset is a broken obligation) + "
+             "exhaustive exact correspondence (D=1 all lengths 1-5 x strides x modes x channel configs x batch; D=2 grid; D=3,4 "
+             "sampled; every layer the theorems are about incl. the D-dim batch/channel layer; functions and all Linop classes incl. "
+             ".H of the adjoint classes; outputs or error kinds; mixed real/complex dtypes incl. which combinations raise TypeError).",
         note="Trusted: Lean kernel; translator gen_c08; scipy.signal.convolve/correlate index conventions (incl. the operand swap "
-             "in valid mode) and numpy slicing/reshape are hand-written contracts checked exactly against scipy; the (b, c_o, c_i) "
-             "loop wiring is not translator-extracted; N-D x batch x channels combination and all error behaviour are validated by "
-             "correspondence only (N-D identity is single-channel; channels proved in 1-D).",
-        technique="Lean 4 proof over translator-generated formulas/branches + exhaustive exact differential correspondence",
+             "in valid mode) and numpy slicing/broadcast/reshape are hand-written contracts checked exactly against scipy; numpy's "
+             "casting rules (silent complex->real on item assignment, TypeError on in-place add) are a hand-written contract "
+             "validated by the mixed-dtype correspondence cases. Validated by correspondence only: the strides default / length check of "
+             "_get_convolve_params (checked structurally by the translator, not consumed), the reshapes between the caller's shapes and the normalised "
+             "(B, c) + spatial layout, all error behaviour, and that the flat-array executable model (convolve / adjoint) equals the "
+             "index-level layers of the theorems (both are compared with the real code on the same inputs).",
+        technique="Lean 4 proof over translator-generated formulas/branches/loop wiring/dtype flags/Linop argument tables + exhaustive exact differential correspondence",
         design="DESIGN.md §3 C08, §9"),
     "C02": dict(
         text="Lean 4 theorems: an effect/alias IR with a concrete store semantics and an abstract points-to analysis "
